@@ -185,7 +185,7 @@ def _invert():
         A0 = np.array(self.data, copy=True)
         res = orig(self, inplace=inplace)
         ctx.count('ma_op', 'invert%s/%s' % ('(inplace)' if inplace else '', self.space.name))
-        ref = np.empty_like(A0)
+        ref = np.empty(A0.shape, dtype=float)
         cond = np.empty(A0.shape[0])
         for l in range(A0.shape[0]):
             ref[l] = np.linalg.inv(A0[l])
